@@ -4,6 +4,7 @@ from __future__ import annotations
 import ast
 
 import z3
+from .slicing import fold as _fold
 
 from .state import State
 from .source import is_static, is_classmethod, is_property
@@ -319,6 +320,13 @@ class ExprMixin:
             yield from self.binop(s1, type(e.op), vs[0], vs[1])
 
     def binop(self, st, op, a, b):
+        for s1, r in self._binop(st, op, a, b):
+            ax = self.T.take_axioms()
+            for c in ax:
+                s1 = s1.assume(c)
+            yield s1, r
+
+    def _binop(self, st, op, a, b):
         for s1, a1 in self.unwrap(st, a, "arithmetic"):
             if isinstance(a1, RaiseV):
                 yield s1, a1
@@ -936,7 +944,7 @@ class ExprMixin:
         for e in ob.items:
             if self.key_const(e[0]) == kc:
                 p = e[1]
-                sp = z3.simplify(p)
+                sp = _fold(p)
                 if z3.is_true(sp):
                     yield st, e[2]
                     return
